@@ -5353,6 +5353,10 @@ class TensorDictBase(MutableMapping):
             total_storage[-8:] = len_metadata
             total_storage[-8 - metadata_dict_json.numel() : -8] = metadata_dict_json
             storage = total_storage[:-suffix]
+            if use_buffer:
+                # a plain view of the buffer: a slice of the MemoryMappedTensor carries its mmap handler,
+                # which can be neither pickled nor deep-copied
+                storage = storage.as_subclass(torch.Tensor)
             # assert len(storage.untyped_storage()) == filesize
 
         offsets = torch.tensor([0] + flat_size).cumsum(0).tolist()
